@@ -48,7 +48,7 @@ func (nv *NodeVisitor) Visit(node ast.Node) ast.Visitor {
 			Logger()
 
 		switch n.Type.(type) {
-		case *ast.InterfaceType, *ast.IndexExpr, *ast.IndexListExpr:
+		case *ast.InterfaceType, *ast.IndexExpr, *ast.IndexListExpr, *ast.Ident, *ast.SelectorExpr:
 			nv.add(nv.ctx, n)
 		default:
 			log.Debug().Msg("found node with unacceptable type for mocking. Rejecting.")
